@@ -56,16 +56,16 @@ TrailingZeros == (part = "rec" /\ n >= 2 /\ n < N0) =>
   LET Z == Dft(Append(xs, Zero), N0) IN \A k \in 1..N0 : CClose(Z[k], X0[k], Tol)
 Parseval == (part = "rec" /\ n >= 2) =>
   LET lhs == FSum(FMap(FSq, xs))
-      half == FSum([k \in 2..(N0 \div 2) |-> CAbs2(X0[k])])
+      half == FSum([k \in 1..((N0 \div 2) - 1) |-> CAbs2(X0[k + 1])])
       rhs == FDiv(FAdd(FAdd(CAbs2(X0[1]), FMul(Two, half)), FSq(NyquistSum(xs))), FInt(N0))
   IN Close(lhs, rhs, FMul(Tol, FAdd(lhs, One)))
 \* inverse DFT of the Hermitian completion without mean and Nyquist bins = InverseTarget
 InverseExact == (part = "rec" /\ n >= 2) =>
   LET tgt == InverseTarget(xs, N0)
       W == Twiddles(N0)
-      inv(j) == FDiv(FSum([k \in 2..(N0 \div 2) |->
-                   LET w == W[(((k - 1) * (j - 1)) % N0) + 1]         \* e^{-i th}; we need Re(X e^{+i th}) * 2
-                   IN FMul(Two, FAdd(FMul(X0[k][1], w[1]), FMul(X0[k][2], w[2])))]), FInt(N0))
+      inv(j) == FDiv(FSum([k \in 1..((N0 \div 2) - 1) |->
+                   LET w == W[((k * (j - 1)) % N0) + 1]               \* e^{-i th}; we need 2 Re(X e^{+i th})
+                   IN FMul(Two, FAdd(FMul(X0[k + 1][1], w[1]), FMul(X0[k + 1][2], w[2])))]), FInt(N0))
   IN \A j \in 1..N0 : Close(inv(j), tgt[j], FMul(Tol, FInt(64)))
 
 \* part 2: implementation in lock-step
